@@ -400,6 +400,7 @@ func runCase(p Prop, d *Driver, in map[string]any) (v Verdict, errStr string) {
 			in = deepCopyJSON(pp.Prepare(in)).(map[string]any)
 		}()
 	}
+	addZoneTable(in)
 	model, err := d.Ask(in)
 	if err != nil {
 		return Verdict{}, err.Error()
